@@ -485,3 +485,22 @@ Theorem stranded_all_schedules : forall sched c s' l,
   (forall n, c <> CResize n) -> (forall e, c <> CSd e) ->
   forall t, In t (queue (runD sched)) -> In t (queue s') /\ st s' t = Queued.
 Proof. intros sched c s' l H. eapply stranded_step; eauto. apply Inv_run. Qed.
+
+(* the meaning of the four shared variables, in every reachable state *)
+Definition bookkeeping_spec (s : state) : Prop :=
+  map fst (workers s) = threads s /\ NoDup (threads s) /\
+  active_count s = Z.of_nat (cnt is_active (workers s)) /\
+  length (threads s) = requested s + stop_count s /\
+  (stop_count s > 0 -> qwait s = []) /\
+  (forall w, In w (qwait s) <-> In (w, WWait) (workers s)) /\
+  (lock s = None <-> sd s <> SdCancel).
+
+Theorem bookkeeping_all_schedules : forall sched, bookkeeping_spec (runD sched).
+Proof.
+  intros sched. destruct (Inv_run sched) as [IA IB _ _]. unfold bookkeeping_spec.
+  split. apply (A_ths _ IA). split. apply (A_nodup _ IA). split. apply (B_act _ IB).
+  split. apply (B_req _ IB). split. apply (B_stop _ IB). split. apply (A_qw _ IA).
+  split.
+  - intros Hl Hc. apply (A_lock1 _ IA) in Hc. congruence.
+  - apply (A_lock2 _ IA).
+Qed.
